@@ -41,7 +41,7 @@ def innermost_repo_frame(tb):
     return site
 
 
-def run_once(wn, scn, rec, wall_cap=60):
+def run_once(wn, scn, rec, wall_cap=60, sim_holder=None):
     """One call of WNTRSimulator(wn).run_sim under taps.  Returns (results|None, exc|None, tb, warnings)."""
     import wntr
     from wntr.sim.solvers import NewtonSolver
@@ -61,7 +61,14 @@ def run_once(wn, scn, rec, wall_cap=60):
         warnings.simplefilter('always', append=True)   # repo's 'error' filter for MatrixRankWarning keeps priority
         try:
             with taps.Taps(rec, wall_cap=wall_cap):
-                sim = wntr.sim.WNTRSimulator(wn)
+                # sim_holder: reuse one simulator object over several run_sim calls (a legitimate way to rerun after a reset)
+                if sim_holder is not None and sim_holder.get('sim') is not None and sim_holder.get('wn') is wn:
+                    sim = sim_holder['sim']
+                else:
+                    sim = wntr.sim.WNTRSimulator(wn)
+                    if sim_holder is not None:
+                        sim_holder['sim'] = sim
+                        sim_holder['wn'] = wn
                 res = sim.run_sim(**kw)
         except taps.WsimTimeout:
             raise
@@ -72,7 +79,7 @@ def run_once(wn, scn, rec, wall_cap=60):
     return res, exc, tb, wl
 
 
-def run_world(scn, plan=None, monitor=None, pauses=None, persist='none', wn=None, caps=True, wall_cap=60):
+def run_world(scn, plan=None, monitor=None, pauses=None, persist='none', wn=None, caps=True, wall_cap=60, sim_holder=None):
     """Build the world and run it to scn.options.duration.
 
     pauses: list of intermediate durations (on the hydraulic grid); after each part the model is
@@ -87,7 +94,7 @@ def run_world(scn, plan=None, monitor=None, pauses=None, persist='none', wn=None
     stops = list(pauses or []) + [T]
     for i, stop in enumerate(stops):
         wn.options.time.duration = stop
-        res, exc, tb, wl = run_once(wn, scn, rec, wall_cap=wall_cap)
+        res, exc, tb, wl = run_once(wn, scn, rec, wall_cap=wall_cap, sim_holder=sim_holder)
         out.warnings.extend(wl)
         if exc is not None:
             out.exc = exc
